@@ -294,6 +294,10 @@ func (en *env) ident(name string) tval {
 			if v, ok := en.e.resolveLoopPhi(name, en.loop); ok {
 				return v
 			}
+			// a parameter that was reassigned before the loop: its current value
+			if v, ok := en.e.resolveSourceVar(name, en.loop, en.st); ok {
+				return v
+			}
 		}
 	}
 	if v, ok := en.names[name]; ok {
